@@ -317,7 +317,8 @@ def finish(ctx, rule, level_note, checker_cmd, extra=None, exhaustive=False):
             if len(seen) > 5:
                 break
             path = write_replay(ctx, {'property': ctx.prop, 'what': v['what'], 'key': v['key'], 'case': v['case'],
-                                      'broken_obligations': [b[1] for b in ctx.broken]}, 'v%d' % len(seen))
+                                      'broken_obligations': [{'kind': b[0], 'name': b[1], 'detail': str(b[2])[:3000]} for b in ctx.broken]},
+                                 'v%d' % len(seen))
             print('VIOLATION property=%s replay=%s' % (ctx.prop, path))
             nviol += 1
         rc = 1
